@@ -47,7 +47,7 @@ def evaluate(ctx, run):
         moved = (k2 != "OK") or (pl2 != pl1)
         if moved:
             custom, ow10 = params[0], params[1]
-            if custom and (ow10 < 0 or ow10 > 10) and k2 == "OK" and order_inverts_row(ctoks, pl1, order2) and ctx.known_finding("F10"):
+            if custom and (ow10 < 0 or ow10 > 10) and order_inverts_row(ctoks, pl1, order2) and ctx.known_finding("F10"):   # the second run may also FAIL (full row, inverted cells no longer fit): same cause
                 known += 1
                 continue
             ofail.append((l, run.impl[i], "legalizing an already legal single-row placement moved a cell (second run: %s)" % k2))
